@@ -85,6 +85,7 @@ def state_info(m, st):
     return {
         'next_ack_id': model_value(m, st.next), 'deleted': model_value(m, st.deleted),
         'ack_deadline_s': model_value(m, st.ackdl),
+        'topic_alive': model_value(m, st.topic_alive) if getattr(st, 'topic_alive', None) is not None else None,
         'backlog': [model_value(m, t) for i, t in enumerate(st.btoks) if model_value(m, st.blen) > i],
         'outstanding': [{'ack': model_value(m, d.ack), 'tok': model_value(m, d.tok),
                          'deadline_ns': model_value(m, d.dl - E())} for d in st.ds if model_value(m, d.used)],
@@ -614,8 +615,8 @@ class ReceiveDropped(ActorStep):
     """SubscriptionActor::receive(request) when the caller has gone away (reply cannot be delivered)"""
     tier = 'T3'
 
-    def __init__(self, ctx, variant, n_out=2, n_back=2):
-        ActorStep.__init__(self, ctx, n_out, n_back, 1, 'x', 'C16.b-receive-' + variant)
+    def __init__(self, ctx, variant, n_out=2, n_back=2, id_=None):
+        ActorStep.__init__(self, ctx, n_out, n_back, 1, 'x', id_ or ('C16.b-receive-' + variant))
         self.variant = variant
         self.desc = 'receive(%s) with the reply receiver already dropped: same state change as with a live caller; no token lost; no panic' % variant
 
@@ -722,11 +723,12 @@ class ActorLoop(ActorStep):
     driven from an arbitrary actor state with at most one request in the mailbox until it parks."""
     tier = 'T3'
 
-    def __init__(self, ctx, n_out=2, n_back=1, k=2, with_request=True, tags='conserve deadline', id_prefix='C01.f'):
+    def __init__(self, ctx, n_out=2, n_back=1, k=2, with_request=True, tags='conserve deadline', id_prefix='C01.f', request='post'):
         ActorStep.__init__(self, ctx, n_out, n_back, k, tags, id_prefix)
         self.with_request = with_request
+        self.request = request
         self.desc = ('the subscription actor loop itself (select! over mailbox and expiry): ' +
-                     ('one PostMessages request in the mailbox' if with_request else 'empty mailbox') +
+                     (('one %s request in the mailbox' % ('PullMessages' if request == 'pull' else 'PostMessages')) if with_request else 'empty mailbox') +
                      ': handled exactly once; everything due at the clock reading is re-queued; parks with the timer armed for the earliest remaining deadline')
         self.unroll = 8
         self.max_paths = 20000
@@ -738,7 +740,15 @@ class ActorLoop(ActorStep):
         p.signals_never_fire = True      # nobody signals the tracker's private Notify while the loop is parked
         st = sym_actor(ctx, p, self.n_out, self.n_back, deleted=False)
         items, toks, n = [], [], z3.IntVal(0)
-        if self.with_request:
+        if self.with_request and self.request == 'pull':
+            from models_async import OneshotTx
+            p.counter += 1
+            mx = p.fresh('max_count')
+            p.assume(z3.And(mx >= 0, mx < 65536))
+            ev = ctx.src.enum_variants('SubscriptionRequest')
+            idx = [i for i, (nm, _) in enumerate(ev) if nm == 'PullMessages'][0]
+            items = [Enum('SubscriptionRequest', idx, {idx: (S(mx, 'u16'), OneshotTx(p.counter))})]
+        elif self.with_request:
             toks = [p.fresh('new%d_tok' % i) for i in range(self.k)]
             n = p.fresh('batch_len')
             p.assume(z3.And(n >= 1, n <= self.k))
@@ -819,7 +829,9 @@ class ActorLoop(ActorStep):
                               z3.And([z3.Implies(u, pm_parts(ctx, v)[2] > last) for u, k, v in m2.slots] or [True])))
             out.append(tagged('deadline', 'nothing is re-queued before its deadline',
                               z3.And([z3.Implies(z3.And(d.used, in_backlog(d.tok)), d.dl <= last) for d in st.ds] or [True])))
-        sleeps = [e for e in res['log'] if e[0] == 'sleep_until']
+        # the timer of the iteration in which the loop parked: armed after the last clock reading
+        last_clock = max([i for i, e in enumerate(res['log']) if e[0] == 'clock'] or [-1])
+        sleeps = [e for i, e in enumerate(res['log']) if e[0] == 'sleep_until' and i > last_clock]
         if sleeps:
             when = sleeps[-1][1].t
             out.append(tagged('deadline', 'C04.f: the timer is armed for the earliest remaining deadline',
